@@ -92,7 +92,7 @@ def _merge(ctx, sub):
         ctx.coverage_extra[k] = ctx.coverage_extra.get(k, 0) + v
 
 
-def pipeline(ctx, genmodule, suite, judgemodule, judgecfg, parts, unit, sample):
+def pipeline(ctx, genmodule, suite, judgemodule, judgecfg, parts, unit, sample, zones=()):
     """generate (+ model-check) every part, drive and judge.  quick: the generators run concurrently and
     the cases of all parts of one group (same judge configuration) are driven and judged together;
     thorough: part by part (bounded memory), the next generator overlapping the current drive + judge.  A part with sim == "M" is model-checked only."""
@@ -127,6 +127,14 @@ def pipeline(ctx, genmodule, suite, judgemodule, judgecfg, parts, unit, sample):
                     if i % max(1, n // 4) == 1:
                         recs.append(json.loads(line))
             ctx.samples += [sample(x) for x in recs[:3]]
+        # the same cases once more under a valuer with a fixed time zone: midnights and zone-less literals are then
+        # wall clock in that zone (harness/suite_c10.go), the symbolic instants - all the judge sees - are unchanged
+        for z in (zones if not batch[0][0]["group"] else ()):
+            ofz = ctx.path("obs_%s_z%d.ndjson" % (names, z))
+            t0 = time.time()
+            ctx.drive(suite, cf, ofz, env={"VERIF_C10_ZONE_MIN": str(z)})
+            vs = pjudge(ctx, judgemodule, judgecfg(batch[0][0]["group"]), ofz, names + "_z%d" % z, parts=4 if ctx.quick else 8)
+            ctx.note("%s under zone %+d min: %d cases (%.0fs; %d not ok)" % (names, z, ctx.count_lines(ofz), time.time() - t0, len(vs)))
         os.remove(cf)
 
     def after_gen(p, sub, cf, r):
@@ -200,7 +208,7 @@ def run(ctx):
     pipeline(ctx, "Gen_c10", "c10", "Judge_c10", lambda edge: "Judge_c10_edge.cfg" if edge else "Judge_c10.cfg",
              [dict(name=p[0], cfg=p[1], group=p[2], sim=p[3], depth=p[4]) for p in parts], "cases",
              lambda x: dict(text=x["obs"].get("text"), lo=x["obs"].get("lo"), hi=x["obs"].get("hi"),
-                            residual=x["obs"].get("resstr", "")))
+                            residual=x["obs"].get("resstr", "")), zones=(-480,) if ctx.quick else (-480, 330, 840))
     ctx.coverage_extra["exhaustive_parts"] = [p[0] for p in parts if not p[3]]
     ctx.coverage_extra["sampled_parts"] = [p[0] for p in parts if p[3]]
     return vp.case_finder
